@@ -38,6 +38,10 @@ func checkC14(c *Ctx) {
 	c.ringMemorySafety()
 	c.ringPositions()
 	c.ringSpaceAccounting()
+	// per-object buffers and lists do not start as views of package-level memory
+	c.noSharedBacking()
+	// the cursors that hand bytes from one side to the other are accessed atomically on both sides
+	c.atomicConsistency()
 }
 
 // roleDisjoint: no location the wait predicates depend on is written by both sides.
